@@ -13,11 +13,11 @@ CONE = "vopy/ordering_cone.py"
 UT = "vopy/utils/utils.py"
 
 
-def _dominates(m, K, batch, tier="quick"):
-    @task("C12", "dominates[m=%d,K=%d,batch=%s]" % (m, K, batch), tier=tier)
+def _dominates(m, K, batch, tier="quick", W_kind="f"):
+    @task("C12", "dominates[m=%d,K=%d,batch=%s%s]" % (m, K, batch, "" if W_kind == "f" else ",W dtype=int"), tier=tier)
     def _t(t):
-        t.mode = "unrolled m=%d K=%d" % (m, K)
-        order = t.inp("order", InOrder("o", K, m))
+        t.mode = "unrolled m=%d K=%d%s" % (m, K, "" if W_kind == "f" else "; cone matrix of INTEGER dtype, real vectors")
+        order = t.inp("order", InOrder("o", K, m, W_kind=W_kind))
         O = t.inputs["order"]
         shape = (m,) if batch is None else (batch, m)
         a = t.inp("a", InArr("a", shape))
@@ -50,6 +50,8 @@ for (_m, _K) in [(1, 1), (2, 2), (2, 3), (3, 3), (3, 4)]:
 _dominates(2, 2, 3)
 _dominates(3, 3, 2)
 _dominates(4, 5, None, tier="thorough")
+_dominates(2, 2, None, W_kind="i")      # a cone given with integer entries (as in the class docstring): vectors stay real
+_dominates(2, 3, 2, W_kind="i")
 
 
 @task("C12", "is_inside.list_input[m=2,K=2]")
@@ -163,6 +165,43 @@ def _cone3d(kind):
 
 for _k in ("acute", "right", "obtuse"):
     _cone3d(_k)
+
+
+def _cone3d_twice(kind):
+    @task("C12", "ConeOrder3D[%s,constructed twice in one process]" % kind)
+    def _t(t):
+        """The bundled cone is what its name says on EVERY construction (no state shared between instances)."""
+        use_alpha_vec_contract(t)
+        o1, o2 = SObj(cls_ref(ORD, "ConeOrder3D")), SObj(cls_ref(ORD, "ConeOrder3D"))
+        first = t.run(ORD, "ConeOrder3D.__init__", [kind], self_val=o1)
+        if len(first) != 1 or first[0].kind != "return":
+            t.prove("first_construction_returns", False)
+            return
+        paths = t.run(ORD, "ConeOrder3D.__init__", [kind], self_val=o2, after=first[0])
+        t.no_raise(paths)
+        W1 = find_self(first[0], o1).fields["ordering_cone"].fields["W"]
+        W1v = [[W1.a[i, j] for j in range(3)] for i in range(3)]   # values right after the first construction
+
+        def same(p):
+            W2 = find_self(p, o2).fields["ordering_cone"].fields["W"]
+            if W2.shape != (3, 3):
+                return False
+            return z3.And(*[V.R(W2.a[i, j]) == V.R(W1v[i][j]) for i in range(3) for j in range(3)])
+
+        def first_untouched(p):
+            from pyvc.symexec import find_obj
+            o = find_obj(p.st, o1.oid)
+            if o is None:
+                return True
+            W = o.fields["ordering_cone"].fields["W"]
+            return z3.And(*[V.R(W.a[i, j]) == V.R(W1v[i][j]) for i in range(3) for j in range(3)])
+        t.prove_paths("second_instance_has_the_same_matrix_as_the_first", paths, same)
+        t.prove_paths("first_instance_is_not_changed_by_the_second_construction", paths, first_untouched)
+    return _t
+
+
+for _k in ("acute", "obtuse"):
+    _cone3d_twice(_k)
 
 
 @task("C12", "ConeOrder3D[unknown-type-raises]")
